@@ -1,38 +1,43 @@
-"""Reads ONE parquet dataset with the real fastparquet (shadow package given as argv[1]) and prints one JSON line.
-Used by C12: runs under the ASan+UBSan build, so any report/crash of the native code on a valid file is visible
-as the process' exit status / stderr."""
+"""C12 files stream: reads whole parquet datasets with the real fastparquet under the ASan+UBSan build.
+Same protocol as codec_worker.py:  python codec_files_worker.py <shadow_root> <cases.json> <out.jsonl> <mode> <start>
+(cases = [{"path": ..., "mode": "default" | "nonulls" | "rowgroups"}]); one JSON line [i, result] per finished case,
+`@@CASE i` on stderr before each case.  A Python exception is an allowed outcome."""
 import json
 import sys
 
 
 def main():
-    root, path, mode = sys.argv[1:4]
+    root, cases_p, out_p = sys.argv[1:4]
+    start = int(sys.argv[5]) if len(sys.argv) > 5 else 0
     sys.path.insert(0, root)
     sys.dont_write_bytecode = True
     import warnings
     warnings.filterwarnings("ignore")
     import fastparquet
-    assert fastparquet.__file__.startswith(root)
-    out = {"path": path, "mode": mode}
-    try:
-        pf = fastparquet.ParquetFile(path)
-        kw = {}
-        if mode == "nonulls":
-            pf = fastparquet.ParquetFile(path, pandas_nulls=False)
-        df = pf.to_pandas(**kw)
-        out["rows"] = int(len(df))
-        out["cols"] = int(len(df.columns))
+    assert fastparquet.__file__.startswith(root), fastparquet.__file__
+
+    def run(c):
+        path, mode = c["path"], c["mode"]
+        pf = fastparquet.ParquetFile(path, pandas_nulls=False) if mode == "nonulls" else fastparquet.ParquetFile(path)
+        df = pf.to_pandas()
+        n = int(len(df))
         if mode == "rowgroups":
             n = 0
             for part in pf.iter_row_groups():
                 n += len(part)
-            out["rows_iter"] = int(n)
-        out["status"] = "ok"
-    except BaseException as e:      # noqa  (a Python exception is an allowed outcome)
-        out["status"] = "exc"
-        out["exc"] = "%s: %s" % (type(e).__name__, str(e)[:160])
-    print("@@RESULT " + json.dumps(out))
-    sys.stdout.flush()
+        return ["ok", "read", n]
+
+    cases = json.load(open(cases_p))
+    with open(out_p, "a") as out:
+        for i in range(start, len(cases)):
+            sys.stderr.write("@@CASE %d\n" % i)
+            sys.stderr.flush()
+            try:
+                r = run(cases[i])
+            except BaseException as e:      # noqa
+                r = ["exc", type(e).__name__, str(e)[:160]]
+            out.write(json.dumps([i, r]) + "\n")
+            out.flush()
 
 
 if __name__ == "__main__":
